@@ -4,6 +4,8 @@ CONSTANTS
     MaxRefresh = 1
     ItemGiveBackUsesItemTag = TRUE
     AtomicRefresh = TRUE
+    MaxReset = 0
+    AtomicReset = TRUE
 SPECIFICATION Spec
 VIEW genview
 CHECK_DEADLOCK FALSE
